@@ -1,6 +1,7 @@
 import KcpVerif.Model.Kcp
 import KcpVerif.Lemmas.C01Ops
 import KcpVerif.Lemmas.C01Sys
+import KcpVerif.Lemmas.KcpAcc
 /-!
 C01 — reliable ordered stream: the reader sees a prefix of what was written.
 Protocol-core part (`C01_core`, DESIGN.md 7.1 items 1–4) on the model `Model/Kcp.lean` of kcp.go.
@@ -191,5 +192,38 @@ theorem C01_core_partial (kA kB : Kcp) (hA : Fresh kA) (hB : Fresh kB) (hsn : kB
     conv => lhs; rw [hd]
     exact bytesOf_gRange_gOf _ _ _ hLb
   exact ⟨e, by rw [e]; exact bytesOf_take_prefix _ _⟩
+
+/-- **Send-side accounting.**  In every reachable state (any operations, any arguments, stream or
+message mode, `mss > 0` initially — `SetMtu` keeps it positive) the bytes `Send` has put into the
+core so far (`accB`: the whole buffer on return 0; on the stream-mode refusal −2 the part that was
+already appended to the last queued segment — see `C01_send_refusal_takes_bytes`) are exactly the
+payload bytes of `L ++ snd_queue`, in order. -/
+theorem C01_send_accounting (k0 : Kcp) (hf : Fresh k0) (hm : 0 < k0.mss.toNat) (ops : List Op) :
+    (run { k := k0 } ops).accB =
+      bytesOf ((run { k := k0 } ops).log ++ (run { k := k0 } ops).k.snd_queue.map content) :=
+  (run_invAcc ops _ (fresh_invAcc k0 hf hm)).acc
+
+/-- **`C01_core`: the reader sees a prefix of what was written** (raw cores, stream of bytes; in
+message mode the same statement holds for the concatenation of the messages).  Same closed system
+and hypotheses as `C01_core_partial`; `accB` are the bytes `A.Send` has taken. -/
+theorem C01_core (kA kB : Kcp) (hA : Fresh kA) (hB : Fresh kB) (hsn : kB.rcv_nxt = kA.snd_nxt)
+    (hm : 0 < kA.mss.toNat) (ops : List SOp)
+    (hLa : (srun ⟨{ k := kA }, { k := kB }⟩ ops).A.log.length ≤ 2 ^ 32)
+    (hLb : (srun ⟨{ k := kA }, { k := kB }⟩ ops).B.dl.length ≤ 2 ^ 32) :
+    (srun ⟨{ k := kA }, { k := kB }⟩ ops).B.got.flatten <+: (srun ⟨{ k := kA }, { k := kB }⟩ ops).A.accB := by
+  have h1 := (C01_core_partial kA kB hA hB hsn ops hLa hLb).2
+  have h2 := (srun_invAcc ops ⟨{ k := kA }, { k := kB }⟩ (fresh_invAcc kA hA hm)).acc
+  rw [h2, bytesOf_append]
+  exact h1.trans (List.prefix_append _ _)
+
+set_option maxRecDepth 100000 in
+/-- the defect behind the −2 clause of `sendTaken` (raw API, stream mode; unreachable through
+`UDPSession`, whose writes are ≤ mss): `Send` of more than 255·mss bytes fails with −2 *after*
+having appended the head of the buffer to the last queued segment. -/
+theorem C01_send_refusal_takes_bytes :
+    ∃ (k : Kcp) (buf : Bytes), (send k buf).ret = -2 ∧ (send k buf).panic = false ∧
+      (send k buf).k.snd_queue ≠ k.snd_queue := by
+  refine ⟨{ Kcp.new 7 with stream := 1, mss := 1, snd_queue := [{ data := [] }] }, List.replicate 257 0, ?_, ?_, ?_⟩
+  all_goals decide
 
 end KcpVerif.Props
